@@ -238,6 +238,25 @@ ALLOWED_AXIOMS = {
 }
 
 
+def coq_failure_site(out):
+    """names the statement a failed build stopped in: ' at <file>:<line> (<Theorem/Lemma name>): <error text>'"""
+    m = re.search(r'File "\./([^"]+)", line (\d+)[^\n]*\n((?:.*\n){0,12}?)Error:?\s*((?:.*\n?){1,3})', out)
+    if not m:
+        return ""
+    f, line, err = m.group(1), int(m.group(2)), " ".join(m.group(4).split())[:200]
+    name = "?"
+    try:
+        src = open(os.path.join(COQ, f)).read().split("\n")[:line]
+        for l in reversed(src):
+            mm = re.match(r"\s*(?:Local\s+|Global\s+)?(Theorem|Lemma|Example|Corollary|Fact|Remark|Definition|Fixpoint|Inductive)\s+([A-Za-z0-9_']+)", l)
+            if mm:
+                name = mm.group(2)
+                break
+    except OSError:
+        pass
+    return " at %s:%d (%s): %s" % (f, line, name, err)
+
+
 def coq_property_file(pid, timeout=1500, stem=None):
     """Re-check Properties_<pid>.v from scratch (its dependencies incrementally) and
     parse the `Print Assumptions` output beneath every theorem.
@@ -259,14 +278,14 @@ def coq_property_file(pid, timeout=1500, stem=None):
                          cwd=COQ, timeout=timeout + 30)
         res["log"] = out
         if rc != 0:
-            res["bad"].append("make %s.vo failed" % stem)
+            res["bad"].append("make %s.vo failed%s" % (stem, coq_failure_site(out)))
             return res
         # now compile the property file itself again, capturing what it prints
         args = coqproject_args()
         rc, out = sh("timeout %d coqc %s %s.v" % (timeout, args, stem), cwd=COQ, timeout=timeout + 30)
         res["log"] += out
         if rc != 0:
-            res["bad"].append("coqc %s.v failed" % stem)
+            res["bad"].append("coqc %s.v failed%s" % (stem, coq_failure_site(out)))
             return res
     # every Theorem must be followed by Print Assumptions; parse outputs in order
     chunks = re.split(r"(?m)^(?=Closed under the global context|Axioms:)", out)
@@ -480,7 +499,8 @@ class Run:
                   (self.pid, self.known.text(self.pid, key), key, self.known_hits[key]))
         lines = []
         seen = set()
-        for what, replay, found in self.violations:
+        # violations with a concrete failing input are reported first (the list is capped at 10 lines)
+        for what, replay, found in sorted(self.violations, key=lambda v: 0 if v[2] else 1):
             blob = json.dumps(replay, sort_keys=True, default=str)
             h = hashlib.sha1(blob.encode()).hexdigest()[:12]
             if h in seen:
